@@ -96,6 +96,9 @@ def main() -> int:
         from sa import inventory
         inventory.run(ck, repo, ck.extra.pop("hygiene_scope_resolved", []))
         undecided += [f"{pid}: {d}" if not re.match(r"C\d\d: ", d) else d for d in ck.deferred]
+        # a report about a function that now delegates to a helper nobody has read is an undecided clause, not a violation
+        from sa import gate
+        undecided += [f"{pid}: {d}" for d in gate.demote(ck, repo)]
         code = ck.finish()
         if undecided and code == 0:
             own = undecided[0].startswith(pid + ":")
